@@ -6,6 +6,7 @@ BOOK_NOTE = ('Assumed: soundness of Verus/Z3; vstd specifications of Vec/BTreeMa
              'core::cmp::min, core::array::from_fn, float operations total); the syntactic rewrite rules R1-R13 of DESIGN.md 3.1 (every application is listed in the evidence); '
              'validity preconditions of the property statement (ids exist, volumes >= 1, prices in range, totals < 2^32, clock monotone, clock discipline). Machine integers are NOT idealised. '
              'save_json/load_json, Display impls and get_orders are not under contract.')
+PY_NOTE = BOOK_NOTE + ' Additionally assumed (stand-ins, listed in the evidence): PyO3 types are opaque; to_pyarray yields the slice elements in order; PyValueError::new_err / OrderError::to_string are opaque; Option::filter keeps the value iff the predicate holds; Xoroshiro128StarStar is an opaque RngCore.'
 CHECKS = {
     'C01': ('proof', 'Verus: both match loops are proved equal to a recursive reference matcher (price-time priority, fill at the resting price, min volume) for an arbitrary well-formed book; '
             'place/create_and_place/process_event/cancel/modify carry `view(new) == ref_op(view(old))` postconditions; unbounded in history length, prices, volumes, LEVELS.',
@@ -45,6 +46,17 @@ CHECKS = {
     'C14': ('proof', 'Verus: every Market operation on asset a ensures the book contract for books[a] and forall j != a: books[j] unchanged (frame); fan-out operations give every book the single-book effect; '
             'all-asset getters return element i == asset i\'s own value; MarketEnv::step: the market view after a shuffled batch equals the fold of per-asset reference events, and a proved projection lemma '
             'shows asset a\'s view equals a stand-alone book fed a\'s own instructions at the same global times.', 'Verus frame conditions over the book array + projection lemma', BOOK_NOTE + ' Additionally assumed: core::mem::take returns the old value and leaves an empty Vec; SliceRandom::shuffle yields SOME permutation of the slice (multiset equality) and nothing else; the generator is opaque; rewrite rule R6 (enumerate / iter_mut / take loops written as the counter or index walk they abbreviate). Batch validity (every instruction valid for the book it meets, batch no longer than the step size, no clock overflow) is the precondition, as in the property statement.'),
+    'C18': ('proof', 'Verus, Rust side only: every #[pymethods] body of OrderBook / StepEnv / StepEnvNumpy within the extractor grammar is verified against the core contracts (a getter wired to the wrong side, a swapped '
+            'argument, a dropped instruction or a changed price is a refuted postcondition); cast_order / cast_trade tuple positions and the Side/Status encodings are full-domain postconditions; off-grid '
+            'prices give Err and leave the object unchanged. NOT covered (stated in the evidence): the PyO3 glue (argument extraction, OverflowError, exception raising), the compiled module under CPython, '
+            'JSON interop, the list builders get_orders/get_trades (adapter chains).', 'Verus postconditions on the PyO3 method bodies against the core contracts', PY_NOTE),
+    'C19': ('proof', 'Verus, Rust side only: the four observation-array builders are verified against the documented index table written as a spec sequence (lengths 9 and 45, element k == documented quantity), '
+            'the history getters return bid series first; the market-data dictionary (HashMap/format!/closures) and the two Python data-frame helpers have no contract within reach and are listed as unchecked.',
+            'Verus postconditions against the documented layout as a spec sequence', PY_NOTE),
+    'C20': ('proof', 'Verus on the REAL macro expansion: for a stated family of 20 shapes (1..8 fields, non-alphabetical names, repeated member types, members that are sets, field attributes incl. cfg, both macros) '
+            'the struct is expanded by the working tree\'s derive macro (rustc -Zunpretty=expanded), the generated update body is cut out verbatim and verified: with members of UNINTERPRETED behaviour the set '
+            'equals the left-to-right composition over the declared fields, each once, same env and rng; the generated signature is compared with the trait method.',
+            'Verus on the macro expansion with uninterpreted member contracts; finite family of shapes', 'Assumed: Verus/Z3; rustc expansion output is the code that is compiled; syn/quote internals not verified; the shapes are a finite family (proof per shape, not for all shapes).'),
 }
 NA = {
     'C09': 'Determinism across runs/processes is a 2-safety property of the whole program including rand, rand_distr, kdam and libm; function contracts can only restate `result == f(inputs)`, and both verifiers already assume executable Rust has no hidden inputs, so a contract proof would be vacuous about exactly the nondeterminism sources the property is about (DESIGN.md 5, C09).',
